@@ -807,11 +807,12 @@ def install_aead(E):
                 m = And(e["g"], snap_eq(e["key"], key), snap_eq(e["nonce"], n), snap_eq(e["ct"], c), snap_eq(e["ad"], a))
                 if is_false(m):
                     continue
-                m = E.ctx_value(m) if hasattr(E, "ctx_value") else m
-                if not is_true(m):
-                    m = z3.simplify(m)
-                    if is_false(m):
-                        continue
+                if not os.environ.get("VERIF_NO_AEAD_SIMP"):
+                    m = E.ctx_value(m) if hasattr(E, "ctx_value") else m
+                    if not is_true(m):
+                        m = z3.simplify(m)
+                        if is_false(m):
+                            continue
                 first = And(m, Not(ok))
                 for i in range(len(e["pt"][0])):
                     ptb[i] = zif(first, e["pt"][0][i], ptb[i])
